@@ -127,6 +127,21 @@ func (e *Engine) VerifyFunction(fn *ssa.Function) (res *FuncResult) {
 			fr.checkErrProp(r, nil)
 		}
 	}
+	if ct != nil && !strings.Contains(ct.Name, "%") {
+		// an anchored clause that matched nothing is a dead letter: report it instead of passing silently
+		for _, a := range ct.Asserts {
+			if fx.anchorHits[a.Anchor] == 0 {
+				fx.obls = append(fx.obls, &Obligation{Name: fx.oblName("assert", a.Clause.Label+"@unmatched-anchor"), Class: "assert", Func: e.shortName(fn),
+					Status: "failed", Solver: "govc-structural", Detail: "anchor @" + a.Anchor + " matches no call / map operation of the function"})
+			}
+		}
+		for _, g := range append(append([]MarkSpec{}, ct.GhostSets...), ct.GhostClrs...) {
+			if fx.anchorHits[g.Glob] == 0 {
+				fx.obls = append(fx.obls, &Obligation{Name: fx.oblName("assert", g.Label+"@unmatched-ghost-anchor"), Class: "assert", Func: e.shortName(fn),
+					Status: "failed", Solver: "govc-structural", Detail: "ghost anchor @" + g.Glob + " matches no event of the function"})
+			}
+		}
+	}
 	if ct != nil {
 		for _, sdir := range ct.Structure {
 			fx.obls = append(fx.obls, e.structural(fn, sdir))
@@ -532,6 +547,32 @@ func (e *Engine) structural(fn *ssa.Function, dir string) *Obligation {
 		if o.Detail == "" {
 			o.Detail = "creation call not found"
 		}
+	case len(f) == 1 && f[0] == "no-channel-ops":
+		// the function synchronises only through the mutex / errgroup named in its contract: no channel send,
+		// receive, select or close — each of which could block a path that the error-propagation obligations assume returns
+		for _, b := range fn.Blocks {
+			for _, in := range b.Instrs {
+				bad := ""
+				switch x := in.(type) {
+				case *ssa.Send:
+					bad = "channel send"
+				case *ssa.Select:
+					bad = "select"
+				case *ssa.MakeChan:
+					bad = "make(chan)"
+				case *ssa.UnOp:
+					if x.Op == token.ARROW {
+						bad = "channel receive"
+					}
+				}
+				if bad != "" {
+					o.Detail = bad + " at " + e.prog.Fset.Position(in.Pos()).String()
+					return o
+				}
+			}
+		}
+		o.Status = "proved"
+		o.Detail = "no channel operations"
 	default:
 		o.Detail = "unknown structural directive"
 	}
